@@ -170,13 +170,11 @@ def stepData (alph : List Char) (s : Str) : Step → Option Str
     if 0 ≤ j ∧ j < s.length then (s[j.toNat]?).map (fun c => [c]) else none
   | .rc => revcomp alph s
 
-/-- steps on which the call must not refuse: in-range, forward, unit-step slices (open ends allowed),
-    in-range indices, reverse complement -/
+/-- steps on which the call must not refuse: every unit-step slice (any bounds: open-ended, negative, past the
+    end, reversed — Python normalises them), in-range indices, reverse complement.  A slice with another step has
+    no contiguous image on the parent and may be refused. -/
 def plainStep (n : Nat) : Step → Bool
-  | .sl a b c =>
-    let s : Int := match a with | some x => x | none => 0
-    let e : Int := match b with | some x => x | none => n
-    (match c with | none => true | some st => st == 1) && decide (0 ≤ s) && decide (s ≤ e) && decide (e ≤ n)
+  | .sl _ _ c => (match c with | none => true | some st => st == 1)
   | .ix i => decide (0 ≤ i) && decide (i < n)
   | .rc => true
 
